@@ -30,10 +30,11 @@ def coded_value(U, letters):
     return lambda lab: f(lab)
 
 
-def apply_faults(U, letters, layout, faults, infs=()):
+def apply_faults(U, letters, layout, faults, infs=(), offset=0.0):
     """-> (records, render kwargs, structural_error: bool, notes)"""
     wide = layout.get("wide")
-    vf = coded_value(U, letters)
+    vf0 = coded_value(U, letters)
+    vf = (lambda lab: vf0(lab) + offset) if offset else vf0
     recs = frames.full_records(U, letters, vf)
     for pos, sign in infs:
         # infinite entries are values like any other (not a fault): they must arrive unchanged under their labels
@@ -195,6 +196,10 @@ def call_import(desc, U, letters, df, tmp):
             return None, e
     if ep == "set_values_from_df":
         prior = np.full(dims.shape, -4.25)
+        if desc.get("target_dtype"):
+            # the array being filled holds placeholders of another storage type (np.arange, ones(dtype=int), float32);
+            # what it holds after the import are the table's values (here all of the form k + 0.25)
+            prior = np.full(dims.shape, -4).astype(desc["target_dtype"])
         tgt = fd.Parameter(dims=dims, values=prior.copy(), name="prior")
         snap = build.snapshot(tgt)
         try:
@@ -232,7 +237,7 @@ def fault_classes(desc):
 def run_fault_case(desc, weak_only=False):
     U, letters, layout = desc["universe"], desc["letters"], desc["layout"]
     infs = [tuple(i) for i in desc.get("infs", [])] if desc.get("entry") != "excel" else []
-    records, lay, kw, structural, unasserted = apply_faults(U, letters, layout, desc["faults"], infs)
+    records, lay, kw, structural, unasserted = apply_faults(U, letters, layout, desc["faults"], infs, 0.25 if desc.get("target_dtype") else 0.0)
     if not records:
         raise Discard("empty frame")
     df = frames.render(U, letters, records, lay, **kw)
@@ -372,6 +377,7 @@ def fault_cases(draw, max_faults=2):
     infs = [[draw(st.integers(0, 40)), draw(st.sampled_from([1, -1, -1]))] for _ in range(draw(st.sampled_from([0, 0, 0, 1, 2])))]
     return {
         "infs": infs,
+        "target_dtype": draw(st.sampled_from([None, None, None, "int64", "float32", "int32"])),
         "universe": U,
         "letters": letters,
         "layout": layout,
